@@ -212,17 +212,24 @@ Qed.
 Lemma wraps_hi : forall L ctx, (4 <= ctx)%nat -> wraps L ctx = 0%nat.
 Proof. intros. unfold wraps. destruct (Nat.leb ctx 3) eqn:E; auto. apply Nat.leb_le in E. lia. Qed.
 
-(** a factor that does not start with a literal starts with an opening bracket *)
-Lemma bracket_first : forall lay y w, wfb w y = true -> starts_lit y = false ->
-    exists ch s, txt lay 5 y = String ch s /\ bstart ch = true.
+(** a factor that does not start with a literal, or is parenthesised, starts with an opening bracket *)
+Lemma bracket_first : forall lay y w prev, wfb w y = true -> (prev = true \/ starts_lit y = false) ->
+    exists ch s, txt lay (factor_ctx prev y) y = String ch s /\ bstart ch = true.
 Proof.
-  intros lay y w W S. rewrite txt_eq. rewrite wraps_hi by lia. cbn [wrap_text].
-  destruct y; try discriminate; cbn [prec Nat.ltb Nat.leb body_txt paren_text];
-    try (eexists; eexists; split; [reflexivity|vm_compute; reflexivity]).
-  (* Many1 *)
-  rewrite txt_eq. rewrite wraps_hi by lia. cbn [wrap_text].
-  destruct y; try discriminate; cbn [prec Nat.ltb Nat.leb body_txt paren_text append];
-    try (eexists; eexists; split; [reflexivity|vm_compute; reflexivity]).
+  intros lay y w prev W H. unfold factor_ctx.
+  destruct (prev && starts_lit y) eqn:E.
+  - (* parenthesised *)
+    rewrite txt_eq. rewrite wraps_hi by lia. cbn [wrap_text].
+    assert (Nat.ltb (prec y) 8 = true) as -> by (apply Nat.ltb_lt; destruct y; cbn; lia).
+    unfold paren_text. eexists; eexists; split; [reflexivity|vm_compute; reflexivity].
+  - assert (S : starts_lit y = false).
+    { destruct H as [H|H]; auto. subst prev. exact E. }
+    clear H E. rewrite txt_eq. rewrite wraps_hi by lia. cbn [wrap_text].
+    destruct y; try discriminate; cbn [prec Nat.ltb Nat.leb body_txt paren_text];
+      try (eexists; eexists; split; [reflexivity|vm_compute; reflexivity]).
+    rewrite txt_eq. rewrite wraps_hi by lia. cbn [wrap_text].
+    destruct y; try discriminate; cbn [prec Nat.ltb Nat.leb body_txt paren_text append];
+      try (eexists; eexists; split; [reflexivity|vm_compute; reflexivity]).
 Qed.
 
 Lemma open_end_inword : forall x, wfb true x = true -> open_end x = true -> is_plain_lit x = true.
@@ -239,34 +246,10 @@ Proof.
   - rewrite skips_no_blank by (cbn [hd_in]; rewrite B; reflexivity). unfold noq. cbn [hd_in]. rewrite Q. reflexivity.
 Qed.
 
-Definition sublink (x : expr) (rest : string) : Prop :=
-  is_plain_lit x = true -> lit_rest false rest /\ noq (skips rest) = true.
-
-Lemma last_cons2 : forall (x y : expr) ys d, last (x :: y :: ys) d = last (y :: ys) d.
-Proof. reflexivity. Qed.
-
-Lemma sub_linked : forall lay r xs k d,
-    adjacent_ok xs = true -> forallb (wfb true) xs = true -> xs <> [] ->
-    (is_plain_lit (last xs d) = true -> lit_rest false r /\ noq (skips r) = true) ->
-    linked (fun k x => txt (sub lay k) 5 x) no_sep r sublink k xs.
-Proof.
-  induction xs as [|x xs IH]; intros k d A W Ne E; [congruence|].
-  cbn [linked]. destruct xs as [|y ys].
-  - cbn [txt_list append linked]. split; auto.
-  - cbn [adjacent_ok] in A. apply andb_true_iff in A as [A1 A2].
-    cbn [forallb] in W. apply andb_true_iff in W as [W1 W2].
-    split.
-    + intros P1. rewrite P1 in A1. cbn [andb negb] in A1. apply negb_true_iff in A1.
-      apply andb_true_iff in W2 as [Wy _].
-      destruct (bracket_first (sub lay (S k)) y true Wy A1) as (ch & s & Et & Bs).
-      cbn [txt_list no_sep append]. rewrite Et. cbn [append]. apply lit_rest_bstart. exact Bs.
-    + apply (IH (S k) d); [exact A2 | exact W2 | discriminate | rewrite last_cons2 in E; exact E].
-Qed.
-
 (** *** How printed expressions start *)
 
 Definition FirstOk (e : expr) : Prop :=
-  forall lay ctx w r, (ctx <= 7)%nat -> wfb w e = true -> mstop lay ctx e r -> first_ok (txt lay ctx e) r.
+  forall lay ctx w r, (ctx <= 8)%nat -> wfb w e = true -> mstop lay ctx e r -> first_ok (txt lay ctx e) r.
 
 Lemma first_paren : forall g1 g2 body r, first_ok (paren_text g1 g2 body) r.
 Proof.
@@ -285,8 +268,11 @@ Proof.
   - cbn [wrap_text]. apply first_paren.
 Qed.
 
-Lemma lvl_le : forall ctx, (ctx <= 7)%nat -> (lvl ctx <= ctx)%nat /\ (lvl ctx <= 6)%nat.
-Proof. intros. unfold lvl. destruct (Nat.eqb ctx 7) eqn:E; [apply Nat.eqb_eq in E|apply Nat.eqb_neq in E]; lia. Qed.
+Lemma lvl_le : forall ctx, (ctx <= 8)%nat -> (lvl ctx <= ctx)%nat /\ (lvl ctx <= 6)%nat.
+Proof.
+  intros. unfold lvl. destruct (Nat.eqb ctx 7) eqn:E; [apply Nat.eqb_eq in E; lia|apply Nat.eqb_neq in E].
+  destruct (Nat.eqb ctx 8) eqn:E8; [apply Nat.eqb_eq in E8|apply Nat.eqb_neq in E8]; lia.
+Qed.
 
 Lemma first_string : forall ch s r, ustart ch = true -> Ascii.eqb ch DOT = false -> first_ok (String ch s) r.
 Proof.
@@ -299,16 +285,82 @@ Lemma first_list : forall f sep x xs r,
     first_ok (f 0%nat x) (append (txt_list f sep 1 xs) r) -> first_ok (txt_list f sep 0 (x :: xs)) r.
 Proof. intros. cbn [txt_list append]. apply first_ok_app. exact H. Qed.
 
+Lemma lvl_low : forall ctx, (ctx <= 6)%nat -> lvl ctx = ctx.
+Proof.
+  intros. unfold lvl. destruct (Nat.eqb ctx 7) eqn:X; [apply Nat.eqb_eq in X; lia|].
+  destruct (Nat.eqb ctx 8) eqn:Y; [apply Nat.eqb_eq in Y; lia|]. reflexivity.
+Qed.
+
 Lemma mstop_low : forall lay ctx e r, (ctx <= 3)%nat -> st ctx r -> mstop lay ctx e r.
 Proof.
-  intros lay ctx e r H S. assert (lvl ctx = ctx) as E.
-  { unfold lvl. destruct (Nat.eqb ctx 7) eqn:X; auto. apply Nat.eqb_eq in X. lia. }
+  intros lay ctx e r H S. assert (lvl ctx = ctx) as E by (apply lvl_low; lia).
   split; [rewrite E; exact S|]. intros _. apply st3_extra. eapply st_mono; [|exact S]. lia.
+Qed.
+
+(** factors of a word: what follows each of them *)
+Lemma factor_ctx_cases : forall prev x, factor_ctx prev x = 5%nat \/ factor_ctx prev x = 8%nat.
+Proof. intros. unfold factor_ctx. destruct (prev && starts_lit x); auto. Qed.
+
+(** the stopper of one factor, from what follows it *)
+Lemma factor_mstop : forall lay prev x T,
+    wfb true x = true -> st 5 T ->
+    (factor_open (factor_ctx prev x) x = true -> lit_rest false T /\ noq (skips T) = true) ->
+    mstop lay (factor_ctx prev x) x T.
+Proof.
+  intros lay prev x T Wx S5 Lk. set (cx := factor_ctx prev x) in *.
+  assert (Lv : lvl cx = 5%nat).
+  { unfold cx, factor_ctx. destruct (prev && starts_lit x); reflexivity. }
+  split; [rewrite Lv; exact S5|]. intros B.
+  unfold bare in B. apply andb_true_iff in B as [B _]. apply negb_true_iff in B. apply Nat.ltb_ge in B.
+  assert (C5 : cx = 5%nat).
+  { unfold cx, factor_ctx in *. destruct (prev && starts_lit x); auto. destruct x; cbn [prec] in B; lia. }
+  split.
+  - intros O. apply Lk. unfold factor_open. rewrite C5, (open_end_inword x Wx O). reflexivity.
+  - intros Pl. rewrite C5. cbn [Nat.leb]. apply Lk. unfold factor_open. rewrite C5, Pl. reflexivity.
+Qed.
+
+Lemma st5_of_c5 : forall r, c5 r -> st 5 r.
+Proof. intros r H. unfold st. repeat split; intros; try lia. exact H. Qed.
+
+Lemma sub_rest : forall (layk : nat -> layout) r,
+    c4 r -> c5 r ->
+    forall xs k prev,
+      Forall (fun x => wfb true x = true /\ FirstOk x) xs ->
+      (sub_last_open prev xs = true -> noq (skips r) = true) ->
+      let T := append (txt_sub (fun k cx f => txt (layk k) cx f) k prev xs) r in
+      st 5 T /\ (prev = true -> lit_rest false T /\ noq (skips T) = true)
+      /\ (xs <> [] -> first_ok (txt_sub (fun k cx f => txt (layk k) cx f) k prev xs) r).
+Proof.
+  intros layk r R4 R5. induction xs as [|x xs IH]; intros k prev G E; cbv zeta.
+  - cbn [txt_sub append sub_last_open] in *.
+    split; [apply st5_of_c5; exact R5|]. split; [|congruence].
+    intros H. split; [exact (c4_lit_rest false r R4)|apply E; exact H].
+  - inversion G as [|? ? [Wx Fx] Gxs]; subst. cbn [txt_sub sub_last_open] in *.
+    set (cx := factor_ctx prev x) in *. set (prev' := factor_open cx x) in *.
+    destruct (IH (S k) prev' Gxs E) as (S5 & Lk & _). cbv zeta in *.
+    set (T' := append (txt_sub (fun k0 cx0 f => txt (layk k0) cx0 f) (S k) prev' xs) r) in *.
+    rewrite app_assoc_s. fold T'.
+    assert (Lv : lvl cx = 5%nat) by (destruct (factor_ctx_cases prev x) as [X|X]; subst cx; rewrite X; reflexivity).
+    assert (Fo : first_ok (txt (layk k) cx x) T').
+    { apply (Fx (layk k) cx true T'); [destruct (factor_ctx_cases prev x); subst cx; lia|exact Wx|].
+      split; [rewrite Lv; exact S5|]. intros B.
+      unfold bare in B. apply andb_true_iff in B as [B _]. apply negb_true_iff in B. apply Nat.ltb_ge in B.
+      assert (C5 : cx = 5%nat).
+      { destruct (factor_ctx_cases prev x) as [X|X]; subst cx; auto. rewrite X in B. destruct x; cbn [prec] in B; lia. }
+      split.
+      - intros O. apply Lk. subst prev'. unfold factor_open. rewrite C5, (open_end_inword x Wx O). reflexivity.
+      - intros Pl. rewrite C5. cbn [Nat.leb]. apply Lk. subst prev'. unfold factor_open. rewrite C5, Pl. reflexivity. }
+    split; [apply st5_of_c5; unfold c5; rewrite (first_ok_skips _ _ Fo); destruct Fo as (ch & s & _ & _ & D); exact D|].
+    split.
+    + intros Hp. subst prev.
+      destruct (bracket_first (layk k) x true true Wx (or_introl eq_refl)) as (ch & s & Et & Bs).
+      fold cx in Et. rewrite Et. cbn [append]. apply lit_rest_bstart. exact Bs.
+    + intros _. apply first_ok_app. exact Fo.
 Qed.
 
 (** the same for the text of the node itself, without its parentheses *)
 Definition FirstBody (e : expr) : Prop :=
-  forall lay ctx w r, (ctx <= 7)%nat -> wfb w e = true -> cstop ctx e r -> first_ok (body_txt lay ctx e) r.
+  forall lay ctx w r, (ctx <= 8)%nat -> wfb w e = true -> cstop ctx e r -> first_ok (body_txt lay ctx e) r.
 
 Lemma first_of_body : forall e, FirstBody e -> FirstOk e.
 Proof.
@@ -431,37 +483,14 @@ Proof.
     intros lay ctx w r Hc W M.
     cbn [wfb] in W. apply andb_true_iff in W as [W W3]. apply andb_true_iff in W as [Ww Wl].
     destruct e; try discriminate. cbn [body_txt].
-    apply andb_true_iff in W3 as [W3 Wadj]. apply andb_true_iff in W3 as [Wlen Wfs]. apply Nat.leb_le in Wlen.
+    apply andb_true_iff in W3 as [Wlen Wfs]. apply Nat.leb_le in Wlen.
     destruct IHe as [_ IHfs].
     destruct M as [M [Mx _]]. cbn [prec] in M.
-    assert (S4 : st 4 r) by exact M.
-    destruct children as [|x xs]; [cbn in Wlen; lia|].
-    apply first_list.
-    inversion IHfs as [|? ? Fx Fxs]; subst.
-    pose proof Wfs as Wfs'. cbn [forallb] in Wfs. apply andb_true_iff in Wfs as [Wx Wxs].
-    assert (E : is_plain_lit (last (x :: xs) (Sequence [] (mkspan 0 0 0))) = true ->
-                lit_rest false r /\ noq (skips r) = true).
-    { intros Pl. split; [apply c4_lit_rest; apply S4; lia|]. apply Mx. cbn [open_end]. exact Pl. }
-    pose proof (sub_linked (sub lay 0) r (x :: xs) 0 _ Wadj Wfs' ltac:(discriminate) E) as Lk.
-    cbn [linked] in Lk. destruct Lk as [Lk0 Lk].
-    assert (Hprop : forall k y rest, (wfb true y = true /\ FirstOk y) -> st 5 rest -> sublink y rest ->
-               st 5 (append (no_sep (S k)) (append (txt (sub (sub lay 0) (S k)) 5 y) rest))).
-    { intros k y rest [Wy Fy] Sr Ly. cbn [no_sep append].
-      assert (Fo : first_ok (txt (sub (sub lay 0) (S k)) 5 y) rest).
-      { apply (Fy _ 5%nat true); [lia | exact Wy |]. split; [exact Sr|].
-        intros _. split.
-        - intros O. apply Ly. apply open_end_inword; auto.
-        - intros Pl. apply Ly. exact Pl. }
-      unfold st, c5. rewrite (first_ok_skips _ _ Fo). destruct Fo as (ch & s & _ & _ & D).
-      repeat split; intros; try lia; auto. }
-    assert (Rest : st 5 (append (txt_list (fun k f => txt (sub (sub lay 0) k) 5 f) no_sep 1 xs) r)).
-    { apply (chain_rest _ _ r (fun y => wfb true y = true /\ FirstOk y) (st 5) sublink); auto.
-      - apply Forall_and; auto. apply forallb_Forall; auto.
-      - eapply st_mono; [|exact S4]. lia. }
-    apply (Fx _ 5%nat true); [lia | exact Wx |]. split; [exact Rest|].
-    intros _. split.
-    + intros O. apply Lk0. apply open_end_inword; auto.
-    + intros Pl. apply Lk0. exact Pl.
+    destruct (sub_rest (fun k => sub (sub lay 0) k) r ltac:(apply M; lia) ltac:(apply M; lia) children 0%nat false)
+      as (_ & _ & Fo).
+    + apply Forall_and; auto. apply forallb_Forall; auto.
+    + intros O. apply Mx. cbn [open_end]. exact O.
+    + apply Fo. destruct children; [cbn in Wlen; lia|discriminate].
 Qed.
 
 Theorem first_ok_any : forall e, FirstOk e.
